@@ -51,11 +51,22 @@ func (c17) Plan(tier string, seed int64) []core.Scenario {
 		}
 	}
 	for cfg := 0; cfg < 3; cfg++ {
-		for pt := 0; pt < 3; pt++ {
+		for pt := 0; pt < 4; pt++ {
 			if tier != "thorough" && cfg > 0 {
 				continue
 			}
 			out = append(out, core.Sc("silent").WithN("cfg", cfg).WithN("pt", pt).WithN("sp", pt%2+1))
+		}
+	}
+	// the same healthy workloads on a link that was re-established once (keepalive must have been set up again)
+	for cfg := 0; cfg < 3; cfg++ {
+		for sp := 0; sp < 4; sp++ {
+			for _, act := range []string{"idle3", "call3", "sub5"} {
+				if tier != "thorough" && (cfg > 0 || (sp != 0 && sp != 2)) {
+					continue
+				}
+				out = append(out, core.Sc("healthy").WithN("cfg", cfg).WithN("sp", sp).WithS("act", act).WithN("reconnect", 1))
+			}
 		}
 	}
 	for i := range out {
@@ -126,9 +137,27 @@ func (c17) once(sc core.Scenario, scale int) (fails []core.Violation, key string
 		}
 	}
 	probe("warm-up")
+	firstAccepts := 1
+	if sc.I("reconnect") == 1 {
+		// lose the link once and let the client re-establish it before the healthy part starts
+		env.Px.KillAll(wsproxy.RST)
+		ok := false
+		for i := 0; i < 400 && !ok; i++ {
+			t := Tok("p")
+			o := Go(t, func() (string, error) { return cl.Echo(bg, t, "") })
+			ok = o.Wait(5*timeout+2*time.Second) && o.Err == nil && o.Val == svc.Reply(t)
+			if !ok {
+				time.Sleep(10 * time.Millisecond)
+			}
+		}
+		if !ok {
+			return nil, "reconnect-failed", false, nil
+		}
+		firstAccepts = env.Px.Accepts()
+	}
 	if sc.Kind == "healthy" {
 		act := sc.Str("act")
-		key = fmt.Sprintf("healthy ping=%v timeout=%v serverping=%v %s", cfg[0], cfg[1], []string{"off", "50ms", "5s", "3xtimeout"}[sc.I("sp")], act)
+		key = fmt.Sprintf("healthy ping=%v timeout=%v serverping=%v %s reconnected=%d", cfg[0], cfg[1], []string{"off", "50ms", "5s", "3xtimeout"}[sc.I("sp")], act, sc.I("reconnect"))
 		dur := time.Duration(0)
 		switch {
 		case strings.HasPrefix(act, "idle"):
@@ -186,8 +215,8 @@ func (c17) once(sc core.Scenario, scale int) (fails []core.Violation, key string
 			}
 			env.Px.SetThrottle(wsproxy.S2C, 0)
 		}
-		if a := env.Px.Accepts(); a != 1 {
-			fail("healthy-link-dropped", "healthy link (ping %v < timeout/2 = %v, server ping %v) was dropped and redialled %d time(s) during '%s'", ping, timeout/2, sping, a-1, act)
+		if a := env.Px.Accepts(); a != firstAccepts {
+			fail("healthy-link-dropped", "healthy link (ping %v < timeout/2 = %v, server ping %v, re-established before: %v) was dropped and redialled %d time(s) during '%s'", ping, timeout/2, sping, sc.I("reconnect") == 1, a-firstAccepts, act)
 		}
 		nontrivial = dur >= 2*timeout
 		sample = map[string]interface{}{"client_ping": cfg[0].String(), "client_timeout": cfg[1].String(), "server_ping": sping.String(), "activity": act, "duration": dur.String(), "accepts": env.Px.Accepts(), "scale": scale}
@@ -216,6 +245,28 @@ func (c17) once(sc core.Scenario, scale int) (fails []core.Violation, key string
 	t0 := time.Now()
 	env.Px.KillAll(wsproxy.BLACKHOLE)
 	bound := 5*timeout + 2*time.Second
+	if pt == 3 {
+		// the application keeps issuing calls (one every timeout/4) while the peer is silent
+		first := Go("first", func() (string, error) { t := Tok("c"); return cl.Echo(bg, t, "") })
+		stop := make(chan struct{})
+		defer close(stop)
+		go func() {
+			for {
+				select {
+				case <-stop:
+					return
+				case <-time.After(timeout / 4):
+					t := Tok("c")
+					go cl.Echo(bg, t, "")
+				}
+			}
+		}()
+		if !first.Wait(bound) {
+			fail("silent-peer-undetected", "with calls issued every %v, the first call pending since the peer fell silent did not fail within %v (timeout %v)", timeout/4, bound, timeout)
+		} else if first.Err == nil {
+			fail("silent-peer-undetected", "call across a blackhole returned a value")
+		}
+	}
 	if pending != nil {
 		if !pending.Wait(bound) {
 			fail("silent-peer-undetected", "call pending across a blackhole did not fail within %v (timeout %v)", bound, timeout)
@@ -229,7 +280,7 @@ func (c17) once(sc core.Scenario, scale int) (fails []core.Violation, key string
 	if !core.Eventually(bound, func() bool { return env.Px.Accepts() > acc }) {
 		fail("silent-peer-no-redial", "no redial reached the proxy within %v of the peer falling silent (timeout %v)", bound, timeout)
 	}
-	sample = map[string]interface{}{"client_ping": cfg[0].String(), "client_timeout": cfg[1].String(), "blackhole_at": []string{"idle", "call in flight", "subscription open"}[pt], "detected_after": time.Since(t0).String(), "scale": scale}
+	sample = map[string]interface{}{"client_ping": cfg[0].String(), "client_timeout": cfg[1].String(), "blackhole_at": []string{"idle", "call in flight", "subscription open", "application keeps calling"}[pt], "detected_after": time.Since(t0).String(), "scale": scale}
 	env.Svc.ReleaseAll()
 	return
 }
